@@ -440,11 +440,17 @@ func processField(ctx context.Context, name string, schema *Schema) (parameter *
 	case jsonObjectType:
 		parameter.Components, err = buildABIParameterArrayForObject(ctx, schema.Properties)
 	case jsonArrayType:
-		if schema.Items == nil {
+		// The details are held at the outermost array level, and the properties of a tuple
+		// at the innermost - so descend through all the dimensions of the array
+		items := schema.Items
+		for items != nil && items.Type == jsonArrayType {
+			items = items.Items
+		}
+		if items == nil {
 			// An array schema must describe its elements
 			return nil, i18n.NewError(ctx, signermsgs.MsgInvalidFFIDetailsSchema, name)
 		}
-		parameter.Components, err = buildABIParameterArrayForObject(ctx, schema.Items.Properties)
+		parameter.Components, err = buildABIParameterArrayForObject(ctx, items.Properties)
 	}
 	if err != nil {
 		return nil, i18n.WrapError(ctx, err, signermsgs.MsgInvalidFFIDetailsSchema, name)
